@@ -32,6 +32,18 @@ impl<'a> Parser<'a> {
         while line_index < lines.len() {
             let ln = line_index + 1;
             if let Some(header) = parse_header(lines[line_index].content) {
+                // A path component made of digits is an index into a container for the
+                // runtime, and a dot separates components: neither can name a container.
+                let (Header::Knot { name, .. }
+                | Header::Function { name, .. }
+                | Header::Stitch { name, .. }) = &header;
+                if name.contains('.') || name.chars().all(|c| c.is_ascii_digit()) {
+                    return Err(CompilerError::invalid_source(format!(
+                        "'{name}' is not a valid name for a knot, stitch or function: a name is \
+                         made of letters, digits and '_', and not of digits only"
+                    ))
+                    .with_line(ln));
+                }
                 match header {
                     Header::Knot {
                         name,
